@@ -1,6 +1,8 @@
 package main
 
 import (
+	"fmt"
+
 	rt "verif.local/rt"
 )
 
@@ -55,6 +57,19 @@ func newVocab(g *Gen, nSchemas, nParams, nHeaders int, maxDepth int) *vocab {
 			vs.instances = append(vs.instances, js(g.Instance(m, 0, r.Chance(550))))
 		}
 		v.schemas = append(v.schemas, vs)
+	}
+	if r.Chance(60) {
+		// a validation that reports very many messages (66..90 required members missing): buffers grown for it go back to the pools
+		n := r.Range(66, 90)
+		req := make([]any, 0, n)
+		for i := 0; i < n; i++ {
+			req = append(req, fmt.Sprintf("r%d", i))
+		}
+		m := M{"type": "object", "required": req}
+		if r.Chance(400) {
+			m = M{"allOf": []any{m, M{"type": "object"}}}
+		}
+		v.schemas = append(v.schemas, vocSchema{text: js(m), m: m, instances: []string{"{}", `{"r0":1}`, `{"r0":1,"r1":2,"x":3}`}})
 	}
 	for i := 0; i < nParams; i++ {
 		v.params = append(v.params, g.Param())
